@@ -134,6 +134,7 @@ def is_real(a):
 # postconditions on the chart maps
 
 def setup(run):
+    r2.WILD_SCALES = True
     from geometry_tools import hyperbolic, projective
     mon = run.monitor("chart-maps", min_events=200)
     dmon = run.monitor("distance", min_events=100)
@@ -605,14 +606,14 @@ def compare_in_model(model, a, b, s, X2=None):
 # ---------------------------------------------------------------------------
 # workloads
 
-CLASSES = ("bulk", "mid", "edge", "origin", "ideal")
+CLASSES = ("bulk", "mid", "edge", "origin", "ideal", "deep-edge")
 
 
 def wl_roundtrip(run, rng, idx):
     mon = run.monitor("round-trip")
     n = 1 + idx % 6
     kind = SHAPE_KINDS[(idx // 6) % 4]
-    cls = CLASSES[(idx // 24) % 5]
+    cls = CLASSES[(idx // 24) % len(CLASSES)]
     shape = rand_shape(rng, kind)
     if cls == "ideal":
         k = r2.rand_ideal(rng, n, shape)
